@@ -796,16 +796,28 @@ def class_scenario(rng, name):
         if rng.random() < 0.4:
             kv.append(("trust_username", rng.choice(["yes", "yes", "no", "1"])))
         rules.append((n, kv))
-    cfg = Cfg(timeout=0, services=services, rules=rules)
+    # a quarter of the tables meet clients that are let in by the request timer while a service is
+    # still silent: "asked, no final answer yet" is a third outcome next to OK and NO/unlinked, and
+    # an xreply_ok criterion must not hold for it
+    timed = rng.random() < 0.25
+    tmo = 30 if timed else 0
+    if timed and rules and rng.random() < 0.7:
+        n, kv = rules[0]
+        rules[0] = (n, [x for x in kv if x[0] != "xreply_ok"] + [("xreply_ok", rng.choice([s[0] for s in services]))])
+    cfg = Cfg(timeout=tmo, services=services, rules=rules)
     scripts = {}
     for cid in rng.sample([1, 2, 5, 7], rng.choice([1, 2])):
         ev = [("C", rng.choice(CADDRS), "1234"), ("line", "N " + rng.choice(HOSTS)), ("line", "u " + rng.choice(IDENTS)),
               ("line", "n nick"), ("line", "U user :real name")]
+        silent = timed and rng.random() < 0.8
         if rng.random() < 0.85:
             ev.insert(rng.randint(1, len(ev)), ("line", "P :+x acct pass"))
-            ev.append(("reply", "X", "login.srv", "OK " + rng.choice(ACCOUNTS) if rng.random() < 0.9 else "OK", "cur"))
-        if len(services) > 1:
+            if not (silent and rng.random() < 0.6):
+                ev.append(("reply", "X", "login.srv", "OK " + rng.choice(ACCOUNTS) if rng.random() < 0.9 else "OK", "cur"))
+        if len(services) > 1 and not (silent and rng.random() < 0.6):
             ev.append(("reply", "X", "drone.srv", rng.choice(["OK", "OK", "AGAIN x"]), "cur"))
+        if silent:
+            ev.insert(rng.randint(max(1, len(ev) - 1), len(ev)), ("timeout",))
         ev.append(("line", "H"))
         scripts[cid] = ev
     head = header("class", cfg)
@@ -826,7 +838,7 @@ def class_scenario(rng, name):
             before = [(a, ("other" if a == extra[0] else b)) for a, b in kv] or [extra]
         old_rules = list(rules)
         old_rules[k] = (n, before)
-        head = header("class", Cfg(timeout=0, services=services, rules=old_rules)) + [cfg.op("reload")]
+        head = header("class", Cfg(timeout=tmo, services=services, rules=old_rules)) + [cfg.op("reload")]
     ops = head + render_schedule(rng, scripts) + [inl("-1 ? :stats"), "eof"]
     return Case(name, ops, tags={"mods": "class"})
 
